@@ -30,7 +30,13 @@ const UNCODABLE_RATES: &[u32] = &[65537, 99999, 705600, 768000, 1048575, 655351,
 const UNCODABLE_BPS: &[u32] = &[4, 7, 9, 13, 17, 23, 31];
 
 pub fn send(ch: &Choices, disk: &Disk, max_frames: u64, small: bool) -> Result<Vec<Sent>, String> {
-    let n = 1 + ch.draw("c16.frames", max_frames);
+    let mut n = 1 + ch.draw("c16.frames", max_frames);
+    // sometimes many tiny frames, so that the coded frame number needs a second byte (>= 128)
+    let many = !small && ch.draw("c16.many", 20) == 19;
+    if many {
+        n = 130 + ch.draw("c16.many.n", 12);
+        probe("c16_frame_numbers_beyond_127");
+    }
     let opts = match ch.draw("c16.opts", 5) {
         4 => Options::default()
             .max_partition_order(ch.draw("c16.part", 16) as u32)
@@ -63,7 +69,7 @@ pub fn send(ch: &Choices, disk: &Disk, max_frames: u64, small: bool) -> Result<V
                 probe("c16_parameter_change_between_frames");
             }
         }
-        let len = if small {
+        let len = if small || many {
             1 + ch.draw("c16.len.s", 24) as usize
         } else if ch.draw("c16.len.big", 16) == 15 {
             // block lengths beyond the "streamable subset" limits and at the top of the 16-bit field
